@@ -504,6 +504,10 @@ func (fx *FuncCtx) wf(st *State, term string, t types.Type, depth int) string {
 	case *types.Slice:
 		return fmt.Sprintf("(and (<= 0 (sl_off %s)) (<= 0 (sl_len %s)) (<= (sl_len %s) (sl_cap %s)) (<= (+ (sl_off %s) (sl_cap %s)) 281474976710655) (<= 0 (sl_arr %s)) (<= (sl_arr %s) %s) (=> (= (sl_arr %s) 0) (= (sl_cap %s) 0)))",
 			term, term, term, term, term, term, term, term, st.Alloc, term, term)
+	case *types.Basic:
+		if fx.u.strings && tt.Info()&types.IsString != 0 {
+			return "(<= (str.len " + term + ") 281474976710655)"
+		}
 	case *types.Pointer, *types.Map:
 		return fmt.Sprintf("(and (<= 0 %s) (<= %s %s))", term, term, st.Alloc)
 	case *types.Interface:
